@@ -4,7 +4,10 @@
      [SchemaSettings::openapi3()], whose output is JSON Schema draft-07
      keywords plus the [nullable] extension ([option_nullable = true]); a
      schema with [nullable: true] accepts [null] in addition to what its other
-     keywords accept.  [$ref] follows draft-07: its siblings are ignored.
+     keywords accept.  [$ref] follows draft-07: its siblings are ignored -
+     except [nullable: true], which schemars emits beside a [$ref] for
+     [Option<T>] of a referenceable [T] (a whole body/response type, or a
+     member of an inline schema): "T or null".
    [valid_oas env o j] : OpenAPI 3.0 Schema Object (JSON Schema Wright draft
      00 subset): [type] is a single string and excludes [null] unless
      [nullable: true]; [exclusiveMinimum]/[exclusiveMaximum] are booleans that
@@ -138,7 +141,7 @@ Section Sem.
     | SBool b => b
     | SObj o =>
         match so_reference o with
-        | Some r => env r j
+        | Some r => (ext_nullable (so_extensions o) && is_null j) || env r j
         | None =>
             (ext_nullable (so_extensions o) && is_null j)
             || (valid_type (so_instance_type o) j
